@@ -219,3 +219,96 @@ Definition check_mismatch_case (r : routine) (impl : impl_result) (evals : list 
              | None => 2%nat
              end) evals in
   (tie_compile_cls :: tie_evals, spec).
+
+(* ---------- C13: two routines that must be equivalent (same structure, mathematically equal expressions) ---------- *)
+Definition seq_exprs (s : sequence) : list (option expr) * list string :=
+  match s with
+  | SConst m => ([Some m], ["constant"])
+  | SArith a d => ([Some a; Some d], ["arithmetic"])
+  | SGeom q => ([Some q], ["geometric"])
+  | SClosed su pr n => ([su; pr], ["closed_form"; n])
+  | SCustom t it => ([Some t], ["custom"; it])
+  end.
+
+Definition oexpr_cmp (inexact : bool) (pts : list (string -> Q)) (a b : option expr) : list nat :=
+  match a, b with
+  | Some x, Some y => map (fun r => cmpx inexact r x y) pts
+  | None, None => [0%nat]
+  | _, _ => [1%nat]
+  end.
+
+Fixpoint routine_equiv (fuel : nat) (inexact : bool) (pts : list (string -> Q)) (a b : routine) : list nat :=
+  match fuel with
+  | O => [1%nat]
+  | S f =>
+      let b2n (x : bool) := if x then 0%nat else 1%nat in
+      let links (r : routine) := flat_map (fun l => map (fun t => (fst l, dot (fst t) (snd t))) (snd l)) (rlinks r) in
+      [ b2n (String.eqb (rname a) (rname b)); b2n (opt_str_eqb (rtype_of a) (rtype_of b));
+        b2n (same_set String.eqb (rparams a) (rparams b));
+        b2n (same_set conn_eqb (rconnections a) (rconnections b));
+        b2n (same_set (fun (x y : string * string) => String.eqb (fst x) (fst y) && String.eqb (snd x) (snd y)) (links a) (links b));
+        b2n (same_set String.eqb (keys (rlocals a)) (keys (rlocals b)));
+        b2n (same_set String.eqb (map p_name (rports a)) (map p_name (rports b)));
+        b2n (same_set String.eqb (map r_name (rresources a)) (map r_name (rresources b)));
+        b2n (same_set String.eqb (map rname (rchildren a)) (map rname (rchildren b))) ]
+      ++ flat_map (fun kv => oexpr_cmp inexact pts (Some (snd kv)) (lookup (fst kv) (rlocals b))) (rlocals a)
+      ++ flat_map (fun p => match find (fun q => String.eqb (p_name q) (p_name p)) (rports b) with
+                            | Some q => b2n (dir_eqb (p_dir p) (p_dir q)) :: oexpr_cmp inexact pts (Some (p_size p)) (Some (p_size q))
+                            | None => [1%nat]
+                            end) (rports a)
+      ++ flat_map (fun x => match find (fun y => String.eqb (r_name y) (r_name x)) (rresources b) with
+                            | Some y => b2n (rtype_eqb (r_type x) (r_type y)) :: oexpr_cmp inexact pts (Some (r_value x)) (Some (r_value y))
+                            | None => [1%nat]
+                            end) (rresources a)
+      ++ match rrep a, rrep b with
+         | None, None => []
+         | Some ra, Some rb =>
+             (oexpr_cmp inexact pts (Some (rep_count ra)) (Some (rep_count rb))
+              ++ b2n (str_list_eqb (snd (seq_exprs (rep_seq ra))) (snd (seq_exprs (rep_seq rb))))
+              :: flat_map (fun xy => oexpr_cmp inexact pts (fst xy) (snd xy))
+                          (combine (fst (seq_exprs (rep_seq ra))) (fst (seq_exprs (rep_seq rb)))))%list
+         | _, _ => [1%nat]
+         end
+      ++ flat_map (fun c => match find_child (rname c) (rchildren b) with
+                            | Some c' => routine_equiv f inexact pts c c'
+                            | None => [1%nat]
+                            end) (rchildren a)
+  end.
+
+(* repetition fields of two compiled trees *)
+Definition dseq_exprs (s : dseq expr) : list (option expr) * list string :=
+  match s with
+  | DConst m => ([Some m], ["constant"])
+  | DArith a d => ([Some a; Some d], ["arithmetic"])
+  | DGeom q => ([Some q], ["geometric"])
+  | DClosed su pr n => ([su; pr; Some n], ["closed_form"])
+  | DCustom t it => ([Some t], ["custom"; it])
+  end.
+
+Fixpoint ctree_equiv (fuel : nat) (inexact : bool) (pts : list (string -> Q)) (a b : ctree expr) : list nat :=
+  match fuel with
+  | O => [1%nat]
+  | S f =>
+      let b2n (x : bool) := if x then 0%nat else 1%nat in
+      [ b2n (String.eqb (ct_name a) (ct_name b)); b2n (opt_str_eqb (ct_type a) (ct_type b));
+        b2n (same_set String.eqb (ct_src_params a) (ct_src_params b));
+        b2n (same_set conn_eqb (ct_connections a) (ct_connections b));
+        b2n (same_set String.eqb (map (@ct_name expr) (ct_children a)) (map (@ct_name expr) (ct_children b))) ]
+      ++ match ct_rep a, ct_rep b with
+         | None, None => []
+         | Some (ca, sa), Some (cb, sb) =>
+             (oexpr_cmp inexact pts (Some ca) (Some cb)
+              ++ b2n (str_list_eqb (snd (dseq_exprs sa)) (snd (dseq_exprs sb)))
+              :: flat_map (fun xy => oexpr_cmp inexact pts (fst xy) (snd xy)) (combine (fst (dseq_exprs sa)) (fst (dseq_exprs sb))))%list
+         | _, _ => [1%nat]
+         end
+      ++ flat_map (fun k => match find_ct (ct_name k) (ct_children b) with
+                            | Some k' => ctree_equiv f inexact pts k k'
+                            | None => [1%nat]
+                            end) (ct_children a)
+  end.
+
+Definition check_ctree_pair (inexact : bool) (pts : list (list (string * Q))) (a b : ctree expr) : list nat :=
+  let ps := points_of pts in
+  (cmp_trees (S (ct_height a)) inexact ps a b ++ cmp_trees (S (ct_height a)) inexact ps b a
+   ++ ctree_equiv (S (ct_height a)) inexact ps a b)%list.
